@@ -266,6 +266,21 @@ Section Run.
     | SNone => Ok VNone
     end.
 
+  (* a fixed tuple whose remaining positions are all None-typed (or empty-tuple-typed) does not
+     read the missing items: the generated expression for such a position is a constant *)
+  Definition const_dec (u: pdec) : option pv :=
+    match u with
+    | UScalar SNone => Some VNone           (* expression "None" *)
+    | UTupleFix [] => Some (VTuple [])      (* expression "()" *)
+    | _ => None end.
+  Fixpoint none_tail (us: list pdec) : res (list pv) :=
+    match us with
+    | [] => Ok []
+    | u :: r => match const_dec u with
+                | Some c => ys <- none_tail r ;; Ok (c :: ys)
+                | None => Exn XIndexError end
+    end.
+
   (* a str arriving at any decoder: iteration yields one-character strings, so the
      whole behaviour is a function of the decoder alone (structural on it) *)
   Fixpoint uk_str (u: pdec) (s: string) {struct u} : res pv :=
@@ -284,7 +299,7 @@ Section Run.
         r <- (fix go (us: list pdec) (l: list string) {struct us} : res (list pv) :=
                 match us, l with
                 | [], _ => Ok []
-                | _ :: _, [] => Exn XIndexError
+                | _ :: _, [] => none_tail us
                 | u' :: us', x :: l' => y <- uk_str u' x ;; ys <- go us' l' ;; Ok (y :: ys)
                 end) us (utf8_chars s) ;;
         Ok (VTuple r)
@@ -330,7 +345,7 @@ Section Run.
               r <- (fix go (us: list pdec) (l: list pv) {struct l} : res (list pv) :=
                       match us, l with
                       | [], _ => Ok []                       (* surplus items are ignored *)
-                      | _ :: _, [] => Exn XIndexError
+                      | _ :: _, [] => none_tail us
                       | u' :: us', x :: l' => y <- uk x u' ;; ys <- go us' l' ;; Ok (y :: ys)
                       end) us l ;;
               Ok (VTuple r)
@@ -351,30 +366,23 @@ Section Run.
           | Some k =>
               match d with
               | VDict kvs =>
-                  (* closures (key, decoder of that entry): the lookup happens on them so that
-                     the recursion stays structural on the input *)
-                  let entries : list (pv * (pdec -> res pv)) :=
-                      map (fun p => match p with (key, x) => (key, uk x) end) kvs in
+                  (* closures (key, (raw value, decoder of that entry)): the lookup happens on
+                     them so that the recursion stays structural on the input *)
+                  let entries : list (pv * (pv * (pdec -> res pv))) :=
+                      map (fun p => match p with (key, x) => (key, (x, uk x)) end) kvs in
                   r <- (fix go (fds: list sfield) : res (list (string * pv)) :=
                           match fds with
                           | [] => Ok []
                           | f :: rest =>
-                              y <- match (fix look (es: list (pv * (pdec -> res pv))) : option (pdec -> res pv) :=
+                              y <- match (fix look (es: list (pv * (pv * (pdec -> res pv)))) : option (pv * (pdec -> res pv)) :=
                                             match es with
                                             | [] => None
-                                            | (key, dx) :: er =>
-                                                if py_eq key (VStr f.(sf_name)) then Some dx else look er
+                                            | (key, xd) :: er =>
+                                                if py_eq key (VStr f.(sf_name)) then Some xd else look er
                                             end) entries with
-                                   | Some dx =>
+                                   | Some (x, dx) =>
                                        (* nullable field: explicit null gives None without calling the unpacker *)
-                                       match (fix raw (kvs: list (pv * pv)) : option pv :=
-                                                match kvs with
-                                                | [] => None
-                                                | (key, x) :: er => if py_eq key (VStr f.(sf_name)) then Some x else raw er
-                                                end) kvs with
-                                       | Some VNone => if sfield_nullable f then Ok VNone else dx (cu false f.(sf_ty))
-                                       | _ => dx (cu false f.(sf_ty))
-                                       end
+                                       if is_none x && sfield_nullable f then Ok VNone else dx (cu false f.(sf_ty))
                                    | None => match f.(sf_default) with
                                              | Some dv => Ok dv
                                              | None => Exn (XMissingField f.(sf_name) c) end
@@ -392,6 +400,19 @@ Section Run.
      scalar, canonical concrete container with every element converted, surplus tuple
      items and unknown keys ignored; iteration semantics of foreign inputs (a str
      iterates its characters, a dict its keys). *)
+  Definition const_ty (t: sty) : option pv :=
+    match t with
+    | SNoneT => Some VNone
+    | STupleFix [] => Some (VTuple [])
+    | _ => None end.
+  Fixpoint none_tail_t (ts: list sty) : res (list pv) :=
+    match ts with
+    | [] => Ok []
+    | t :: r => match const_ty t with
+                | Some c => ys <- none_tail_t r ;; Ok (c :: ys)
+                | None => Exn XIndexError end
+    end.
+
   Fixpoint ref_dec_str (t: sty) (s: string) {struct t} : res pv :=
     match t with
     | SAny => Ok (VStr s)
@@ -411,7 +432,7 @@ Section Run.
         r <- (fix go (ts: list sty) (l: list string) {struct ts} : res (list pv) :=
                 match ts, l with
                 | [], _ => Ok []
-                | _ :: _, [] => Exn XIndexError
+                | _ :: _, [] => none_tail_t ts    (* NoneType's constructor is the constant None: the item is not read *)
                 | t' :: ts', x :: l' => y <- ref_dec_str t' x ;; ys <- go ts' l' ;; Ok (y :: ys)
                 end) ts (utf8_chars s) ;;
         Ok (VTuple r)
@@ -461,7 +482,7 @@ Section Run.
               r <- (fix go (ts: list sty) (l: list pv) {struct l} : res (list pv) :=
                       match ts, l with
                       | [], _ => Ok []
-                      | _ :: _, [] => Exn XIndexError
+                      | _ :: _, [] => none_tail_t ts
                       | t' :: ts', x :: l' => y <- ref_dec x t' ;; ys <- go ts' l' ;; Ok (y :: ys)
                       end) ts l ;;
               Ok (VTuple r)
